@@ -47,11 +47,17 @@ def main():
         except Exception:
             title = ""
         fired = [f"{p}#{','.join(x.split('#')[1] for x in v['rules'])}" for p, v in sorted(out[sid].items()) if v["rc"] == 1]
-        if any(f.startswith(sid.split("-")[0] + "#") for f in fired):
+        owner = sid.split("-")[0]
+        try:
+            owner = json.load(open(os.path.join(root, sid, "meta.json"))).get("clause_owner") or owner
+        except Exception:
+            pass
+        if any(f.startswith(owner + "#") for f in fired):
             own += 1
         rows.append(f"| {sid} | {title} | {' '.join(fired) or '**missed**'} |")
     rows.append("")
-    rows.append(f"{own} of {len(out)} seeded changes are reported by the check of the property they were written to break.")
+    rows.append(f"{own} of {len(out)} seeded changes are reported by the check of the property they were written to break "
+                "(for a change whose meta.json names a `clause_owner`, by that property's check).")
     open(os.path.join(root, "MATRIX.md"), "w").write("\n".join(rows) + "\n")
 
 if __name__ == "__main__":
